@@ -8,7 +8,7 @@ def run_c14_opmode(ck, pairs, make_cases):
     cov = ck.coverage
     saved = {k: cov.get(k) for k in ("evaluations", "distinct_nontrivial", "rule", "samples", "distribution", "exhaustive")}
     tie = dict(cov.get("tie", {}))
-    n_single = 4160 if not ck.quick else 260
+    n_single = 4160 if not ck.quick else 100
     opwire.run_opmode(ck, "C14.v", n_quick=(0, n_single, 6), n_thorough=(0, 4160, 6))
     op = {"evaluations": cov.get("evaluations", 0), "tie": cov.get("tie", {})}
     cov["evaluations"] = (saved["evaluations"] or 0) + (cov.get("evaluations") or 0)
